@@ -57,7 +57,7 @@ def subst(e, env):
     return e
 
 
-def compare(name, fn, got, spec_text, scratch, T, setter, argname, log):
+def compare(name, fn, got, spec_text, scratch, T, setter, argname, log, value=False):
     """One obligation: `got` (AST from the code) must equal the spec expression."""
     spec = norm(rp.parse_expr(spec_text))
     gotn = norm(got)
@@ -65,6 +65,27 @@ def compare(name, fn, got, spec_text, scratch, T, setter, argname, log):
     if rp.show(gotn) == rp.show(spec):
         return Obligation(name, "expression-identity", DISCHARGED, time.time() - t0, "complete", [fn],
                           detail="code: %s" % rp.show(gotn), checks=1)
+    if value:
+        # a *value* that is not the documented expression: compare over the reals (fields as arbitrary positive reals)
+        import z3
+        from . import smt
+        try:
+            env = smt.Env("exact")
+            for nm in ("self.resample_ratio_original", "self.max_relative_ratio", "self.resample_ratio", "self.target_ratio", "new_ratio", "rel_ratio"):
+                env.declare(nm, "f64")
+            va, vb = env.ev(gotn), env.ev(spec)
+            pos = [v_.t > 0 for v_ in env.vars.values()]
+            res, model, secs = smt.check_valid(pos, va.t == vb.t, 20000)
+        except Undecided as ex:
+            return Obligation(name, "z3", UNDECIDED, time.time() - t0, "complete", [fn], detail="cannot compare `%s` with `%s`: %s" % (rp.show(gotn), rp.show(spec), ex))
+        if res == "valid":
+            return Obligation(name, "z3", DISCHARGED, secs, "complete-real", [fn], checks=1,
+                              detail="code applies `%s`, equal to `%s` over the reals" % (rp.show(gotn), rp.show(spec)))
+        if res == "invalid":
+            md = smt.model_dict(model)
+            return Obligation(name, "z3", FAILED, secs, "complete", [fn], checks=1, counterexample=md,
+                              detail="the accepted call applies `%s`, the property requires `%s`; they differ e.g. at %s" % (rp.show(gotn), rp.show(spec), md))
+        return Obligation(name, "z3", UNDECIDED, secs, "complete", [fn], detail="Z3 unknown on `%s` == `%s`" % (rp.show(gotn), rp.show(spec)))
     # Not the documented expression: hand the question to the bit-precise verifier on the compiled code
     # (Kani harness over symbolic original/max/argument).  A counterexample there is replayed natively;
     # success there discharges this obligation; a solver limit leaves it undecided.
@@ -177,7 +198,7 @@ def stage(scratch, tier, log):
             try:
                 cond, val = effective(src, impl, setter)
                 obs.append(compare("C12.%s.%s.%s" % (T, setter, n1), fn, cond, spec_c, scratch, T, setter, arg, log))
-                obs.append(compare("C12.%s.%s.%s" % (T, setter, n2), fn, val, spec_v, scratch, T, setter, arg, log))
+                obs.append(compare("C12.%s.%s.%s" % (T, setter, n2), fn, val, spec_v, scratch, T, setter, arg, log, value=True))
             except (rp.ParseError, Undecided) as e:
                 obs.append(Obligation("C12.%s.%s.%s" % (T, setter, n1), "extraction", UNDECIDED, detail=str(e), functions=[fn]))
     return obs
